@@ -191,6 +191,12 @@ impl<'a> ProtobufReader<'a> {
     ) -> Result<Vec<<T as ReadableType>::Type>, <Self as Reader>::Error> {
         let mut vec = Vec::new();
 
+        if matches!(self.state, State::Root { .. }) {
+            // a list that is itself the element of a list has no field of its own: its elements
+            // cannot be told apart from those of its neighbours (and the loop below would not end)
+            return Err(Error::unexpected_format(Format::LengthDelimited));
+        }
+
         while let Some(range) = self.next_tag_range::<false>() {
             let mut state = State::Root { range };
             core::mem::swap(&mut self.state, &mut state);
